@@ -1,0 +1,57 @@
+//! Verification hooks. Compiled only with the cargo feature `verif`.
+//!
+//! A process-global optional callback is invoked at named points inside the
+//! store's write and read paths. Test machinery uses it to kill the process at
+//! a chosen point or to pause a thread there. With no callback installed a
+//! point costs one relaxed atomic load.
+
+use std::sync::atomic::{AtomicBool, Ordering};
+use std::sync::{Arc, RwLock};
+
+/// The type of the callback invoked at every named point
+pub type Hook = Arc<dyn Fn(&'static str) + Send + Sync>;
+
+static INSTALLED: AtomicBool = AtomicBool::new(false);
+static HOOK: RwLock<Option<Hook>> = RwLock::new(None);
+
+/// Install (or with `None`, remove) the process-global callback
+pub fn set_hook(hook: Option<Hook>) {
+    let mut guard = HOOK.write().unwrap_or_else(|e| e.into_inner());
+    INSTALLED.store(hook.is_some(), Ordering::SeqCst);
+    *guard = hook;
+}
+
+/// A named point. Calls the callback if one is installed.
+#[inline]
+pub fn point(name: &'static str) {
+    if !INSTALLED.load(Ordering::Relaxed) {
+        return;
+    }
+    let hook = {
+        let guard = HOOK.read().unwrap_or_else(|e| e.into_inner());
+        guard.clone()
+    };
+    if let Some(h) = hook {
+        h(name);
+    }
+}
+
+/// Guard returned by [`midcopy`]; announces the point `es.copied` when dropped,
+/// i.e. after the event bytes are fully copied but before the end marker moves.
+#[derive(Debug)]
+pub(crate) struct Copied;
+
+impl Drop for Copied {
+    fn drop(&mut self) {
+        point("es.copied");
+    }
+}
+
+/// Copies the first half of `src` into `dst`, then announces the point
+/// `es.midcopy` (a half-written append). The caller then performs the full copy.
+pub(crate) fn midcopy(dst: &mut [u8], src: &[u8]) -> Copied {
+    let half = src.len().min(dst.len()) / 2;
+    dst[..half].copy_from_slice(&src[..half]);
+    point("es.midcopy");
+    Copied
+}
